@@ -8,15 +8,16 @@
         l.1162-1200 PublicationMatched            l.1238-1282 OfferedIncompatibleQos (only when
         l.1779-1816 SubscriptionMatched           l.1850-1889 RequestedIncompatibleQos   the status changed)
         l.1306-1335, 1913-1942, 2596-2627 InconsistentTopic (three copies of the same chain)
-        l.1348-1434 remove_discovered_reader: PublicationMatched chain for the lost match
-        l.1955-2040 remove_discovered_writer: SubscriptionMatched chain for the lost match
+        notify_publication_match_lost / notify_subscription_match_lost: the PublicationMatched /
+                    SubscriptionMatched chain for a LOST match, called from the three places where a
+                    match is lost: remove_discovered_reader / _writer (the matched endpoint was deleted),
+                    process_discovered_readers / _writers (the matched endpoint's updated QoS is
+                    incompatible) and remove_discovered_participant (through remove_discovered_reader /
+                    _writer)
    Inputs of a chain: for each level (entity, publisher/subscriber, participant) whether a listener
    is installed (`listener_sender` is Some) and the level's listener mask (`listener_mask`).
    SampleLost, LivelinessLost and LivelinessChanged are never raised by this implementation (no
-   ListenerMail kind, no add_communication_state): there is no chain to model.
-   NOT modelled: the two other places where a match is lost — a matched endpoint whose updated QoS is
-   incompatible (discovery_methods.rs:1204-1222, 1818-1835) and the removal of a discovered participant
-   (2815-2860); they raise the status without running a listener chain. *)
+   ListenerMail kind, no add_communication_state): there is no chain to model. *)
 From DustDDS Require Import Base.Machine.
 Open Scope Z_scope.
 
@@ -73,7 +74,7 @@ Definition dispatch_data (r s p : lcfg) : list call :=
   else if en p KDA then send p Participant KDA
   else [].
 
-(* remove_discovered_writer: the matched writer is gone *)
+(* notify_subscription_match_lost: a match of the reader is lost (all three causes) *)
 Definition dispatch_subscription_unmatched (r s p : lcfg) : list call :=
   if en r KSM then send r Entity KSM
   else if en s KSM then send s Group KSM
@@ -99,7 +100,7 @@ Definition dispatch_offered_incompatible_qos (w b p : lcfg) : list call :=
   else if en p KOIQ then send p Participant KOIQ
   else [].
 
-(* remove_discovered_reader: the matched reader is gone *)
+(* notify_publication_match_lost: a match of the writer is lost (all three causes) *)
 Definition dispatch_publication_unmatched (w b p : lcfg) : list call :=
   if en w KPM then send w Entity KPM
   else if en b KPM then send b Group KPM
@@ -154,7 +155,9 @@ Definition swallowed (k : kind) (e g p : lcfg) : bool :=
 Inductive ev : Type :=
 | EvPM (w : nat) | EvOIQ (w : nat) | EvODM (w : nat) | EvPMun (w : nat)
 | EvSM (r : nat) | EvRIQ (r : nat) | EvRDM (r : nat) | EvSMun (r : nat)
-| EvData (r : nat) | EvSR (r : nat).
+| EvData (r : nat) | EvSR (r : nat)
+(* a match lost because the matched endpoint's updated QoS is incompatible / because its participant is gone *)
+| EvPMupd (w : nat) | EvSMupd (r : nat) | EvPMgone (w : nat) | EvSMgone (r : nat).
 
 (* the entities of the scenario: writers under one publisher of participant 0, readers under one
    subscriber of participant 1 *)
@@ -179,21 +182,23 @@ Definition dispatch_ev (c : world) (e : ev) : list lcall :=
   | EvPM i => map (wlab i) (dispatch_publication_matched (wr c i) (w_pub c) (w_p0 c))
   | EvOIQ i => map (wlab i) (dispatch_offered_incompatible_qos (wr c i) (w_pub c) (w_p0 c))
   | EvODM i => map (wlab i) (dispatch_offered_deadline_missed (wr c i) (w_pub c) (w_p0 c))
-  | EvPMun i => map (wlab i) (dispatch_publication_unmatched (wr c i) (w_pub c) (w_p0 c))
+  | EvPMun i | EvPMupd i | EvPMgone i =>
+      map (wlab i) (dispatch_publication_unmatched (wr c i) (w_pub c) (w_p0 c))
   | EvSM i => map (rlab i) (dispatch_subscription_matched (rd c i) (w_sub c) (w_p1 c))
   | EvRIQ i => map (rlab i) (dispatch_requested_incompatible_qos (rd c i) (w_sub c) (w_p1 c))
   | EvRDM i => map (rlab i) (dispatch_requested_deadline_missed (rd c i) (w_sub c) (w_p1 c))
-  | EvSMun i => map (rlab i) (dispatch_subscription_unmatched (rd c i) (w_sub c) (w_p1 c))
+  | EvSMun i | EvSMupd i | EvSMgone i =>
+      map (rlab i) (dispatch_subscription_unmatched (rd c i) (w_sub c) (w_p1 c))
   | EvData i => map (rlab i) (dispatch_data (rd c i) (w_sub c) (w_p1 c))
   | EvSR i => map (rlab i) (dispatch_sample_rejected (rd c i) (w_sub c) (w_p1 c))
   end.
 
 Definition spec_ev (c : world) (e : ev) : list lcall :=
   match e with
-  | EvPM i | EvPMun i => map (wlab i) (spec_calls KPM (wr c i) (w_pub c) (w_p0 c))
+  | EvPM i | EvPMun i | EvPMupd i | EvPMgone i => map (wlab i) (spec_calls KPM (wr c i) (w_pub c) (w_p0 c))
   | EvOIQ i => map (wlab i) (spec_calls KOIQ (wr c i) (w_pub c) (w_p0 c))
   | EvODM i => map (wlab i) (spec_calls KODM (wr c i) (w_pub c) (w_p0 c))
-  | EvSM i | EvSMun i => map (rlab i) (spec_calls KSM (rd c i) (w_sub c) (w_p1 c))
+  | EvSM i | EvSMun i | EvSMupd i | EvSMgone i => map (rlab i) (spec_calls KSM (rd c i) (w_sub c) (w_p1 c))
   | EvRIQ i => map (rlab i) (spec_calls KRIQ (rd c i) (w_sub c) (w_p1 c))
   | EvRDM i => map (rlab i) (spec_calls KRDM (rd c i) (w_sub c) (w_p1 c))
   | EvData i => map (rlab i) (spec_data (rd c i) (w_sub c) (w_p1 c))
